@@ -32,10 +32,13 @@
 //   - user calls racing with Stop (AddConn, DialAsync, Write) are explored as their own scenario
 //     families ("addconn-racing-stop", ...): the statement lists dials and transferred connections
 //     "racing with it";
-//   - the happens-before state cache is on for the large scenarios; because nbio's shutdown flags
-//     and descriptor table are read without synchronisation (and the overlay has no Touch points
-//     for them) every scenario family is additionally run with the cache off at P<=1, and the small
-//     ones at the full bound (scenario names "core/nocache ...", "http/nocache ...").
+//   - the overlay turns nbio's unsynchronised shutdown flags and descriptor table into scheduling
+//     points and happens-before objects (vsched.Touch in cmd/ovgen; Conn.closed is deliberately not
+//     one of them). The fake listener additionally records its Accept-entry / Close-entry steps
+//     before its own scheduling point, so that they lie in the same scheduling segment as the
+//     caller's flag access. As a cross-check of the happens-before cache every single-event core
+//     family is also run with the cache off (scenario names "core/nocache ...", "http/nocache ...");
+//     cached and uncached explorations report the same signature sets (notes/mutations_C18.md).
 package main
 
 import (
@@ -1356,7 +1359,7 @@ func main() {
 			"time is virtual: no connection deadline fires unless the scenario says so; a stopping call that can only return after a keep-alive / read deadline expires counts as not returning; the nbhttp Shutdown poll ticker is fired whenever the system is idle",
 			"a system call on a closed descriptor number is reported (fd-reuse hazard) even if it fails harmlessly with EBADF in the model",
 			"IOModBlocking / TLS / real net.TCPConn paths are not reachable under the cooperative scheduler (DESIGN §5); IOModMixed is run with fake connections, which its blocking half rejects",
-			"interleavings are sequentially consistent and switch only at lock/unlock, atomic, channel, timer, system-call and harness-callback points; nbio's unsynchronised shutdown flags are not switching points of their own",
+			"interleavings are sequentially consistent and switch at lock/unlock, atomic, channel, timer, system-call, harness-callback points and at the accesses to the unsynchronised fields listed in cmd/ovgen (shutdown flags, descriptor table, HTTP connection maps); Conn.closed read without the mutex is not a switching point of its own",
 		},
 		Build: build, QuickBudget: 60 * time.Second, ThoroughBudget: 12 * time.Minute, MinNonTrivial: 20,
 	})
